@@ -1958,6 +1958,8 @@ package mcp
 // InputRequestMap.UnmarshalJSON (C19: decoding never panics on arbitrary bytes): a server-chosen "inputRequests" object -
 // null entries, unknown methods, undecodable params - yields a value or an error, never a panic.
 //@ func (*InputRequestMap).UnmarshalJSON [C19]
+//@   track encoding/json.Unmarshal as stdDecCS
+//@   ensures @peer-data-is-decoded-case-sensitively calls(stdDecCS) == 0
 //@   nopanic
 //@   requires m != nil
 //@   modifies *
@@ -1966,10 +1968,14 @@ package mcp
 // No-panic sweep over the SDK's own decoders (C19: decoding never panics on arbitrary bytes): whatever bytes or wire
 // structs they are given, they return a value or an error.
 //@ func (*InputResponseMap).UnmarshalJSON [C19]
+//@   track encoding/json.Unmarshal as stdDecCS
+//@   ensures @peer-data-is-decoded-case-sensitively calls(stdDecCS) == 0
 //@   nopanic
 //@   requires m != nil   // encoding/json calls UnmarshalJSON on an allocated value
 //@   modifies *
 //@ func unmarshalInputResponse [C19]
+//@   track encoding/json.Unmarshal as stdDecCS
+//@   ensures @peer-data-is-decoded-case-sensitively calls(stdDecCS) == 0
 //@   nopanic
 //@   modifies *
 //@ func (*CallToolResult).UnmarshalJSON [C19]
